@@ -536,6 +536,12 @@ func Fixed() []Scenario {
 		{P0: 10, Q0: 0, C0: map[int64]int{5: 5, 8: 20}, Fresh: map[int64]bool{8: true}, Late: map[int64]bool{5: true, 8: true}, Log: []Entry{{ID: 1, Kind: KChMsg, Chan: 5, Pos: 6, Count: 1}, {ID: 2, Kind: KChMsg, Chan: 8, Pos: 21, Count: 1},
 			{ID: 3, Kind: KChMsg, Chan: 5, Pos: 7, Count: 1}, {ID: 4, Kind: KChMsg, Chan: 8, Pos: 22, Count: 1}},
 			Actions: []Action{{Op: "p", IDs: []int{1}}, {Op: "p", IDs: []int{2}}, {Op: "K", C: 5}, {Op: "K", C: 8}, {Op: "p", IDs: []int{3}}, {Op: "p", IDs: []int{4}}}},
+		// a message from a user whose access hash is unknown: the whole container (a channel update and a
+		// position-less update with it) is dropped and the difference fetched; it brings the message and
+		// the user, so that user's next message passes; another user is made known by U; a third is not
+		{P0: 10, Q0: 0, C0: map[int64]int{5: 5}, Log: []Entry{{ID: 1, Kind: KMsg, Pos: 11, Count: 1, User: 1}, {ID: 2, Kind: KChMsg, Chan: 5, Pos: 6, Count: 1}, {ID: 3, Kind: KPlain},
+			{ID: 4, Kind: KMsg, Pos: 12, Count: 1, User: 1}, {ID: 5, Kind: KMsg, Pos: 13, Count: 1, User: 2}, {ID: 6, Kind: KMsg, Pos: 14, Count: 1, User: 3}},
+			Actions: []Action{{Op: "p", IDs: []int{1, 2, 3}}, {Op: "p", IDs: []int{4}}, {Op: "U", IDs: []int{2}}, {Op: "p", IDs: []int{5}}, {Op: "ps", N: 1, B: 1, IDs: []int{6}}}},
 		// numbered containers (the seq box): 1 arrives; 2 is late, 3 parks behind the hole and is applied
 		// with it; 1 arrives again; 4 is lost, so 5..6 parks until the seq gap timer fetches the difference
 		{P0: 10, Q0: 0, C0: map[int64]int{5: 5}, Log: []Entry{{ID: 1, Kind: KMsg, Pos: 11, Count: 1}, {ID: 2, Kind: KMsg, Pos: 12, Count: 1}, {ID: 3, Kind: KChMsg, Chan: 5, Pos: 6, Count: 1},
